@@ -714,7 +714,25 @@ fn request(rng: &mut Rng, cursors: &[String]) -> Value {
     m.insert("suggest".into(), json!({"s": {"type": "completion", "field": text_field(rng), "prefix": word(rng), "size": small_usize(rng), "fuzzy": if rng.chance(0.5) { json!({"max_edits": 2, "prefix_length": small_usize(rng)}) } else { Value::Null }}}));
   }
   if rng.chance(0.15) {
-    m.insert("rescore".into(), json!({"window_size": hostile_usize(rng), "query": query(rng, 2), "score_mode": (["total", "multiply", "sum", "max", "min"][rng.usize(5)])}));
+    if rng.chance(0.5) {
+      // a rescore query that REJECTS a data-dependent subset of the window (min_score against a
+      // field-valued function, or a script that is non-finite for some documents), on a request that
+      // matches many documents: exercises the removal / re-sort bookkeeping after rejections
+      let rq = if rng.chance(0.7) {
+        json!({"type": "function_score", "query": {"type": "match_all"}, "functions": [{"type": "field_value_factor", "field": (["n", "x", "ts"][rng.usize(3)]), "missing": 0.0}],
+          "boost_mode": "replace", "min_score": (rng.range(-10, 40) as f64)})
+      } else {
+        json!({"type": "script_score", "query": {"type": "match_all"}, "script": (["1 / (n - 3)", "log(n - 5)", "sqrt(x)", "n / (n - 7)", "1 / (x - x * (n - 2))"][rng.usize(5)])})
+      };
+      if rng.chance(0.7) {
+        m.insert("query".into(), if rng.chance(0.5) { json!({"type": "match_all"}) } else { json!("rust") });
+        m.insert("limit".into(), json!(rng.urange(2, 60)));
+        m.remove("cursor");
+      }
+      m.insert("rescore".into(), json!({"window_size": (if rng.chance(0.8) { json!(rng.urange(2, 100)) } else { hostile_usize(rng) }), "query": rq, "score_mode": (["total", "multiply", "sum", "max", "min"][rng.usize(5)])}));
+    } else {
+      m.insert("rescore".into(), json!({"window_size": hostile_usize(rng), "query": query(rng, 2), "score_mode": (["total", "multiply", "sum", "max", "min"][rng.usize(5)])}));
+    }
   }
   if rng.chance(0.2) {
     m.insert("explain".into(), json!(true));
